@@ -153,8 +153,53 @@ func c05AfterRoundTrip(codec uint64, v model.Val) model.Val {
 	return v
 }
 
+// c05UnknownParts: a link prototype naming a codec or a hash function nobody registered. Store and ComputeLink
+// must answer with an error and no link (never neither, never a panic), Load of such a link likewise. (A
+// surviving mechanical mutant made ComputeLink return (nil, nil) when no hasher could be chosen.)
+func c05UnknownParts(c *fw.Ctx, rng *fw.RNG) {
+	lsys := cidlink.DefaultLinkSystem()
+	ms := &memstore.Store{}
+	lsys.SetReadStorage(ms)
+	lsys.SetWriteStorage(ms)
+	n := basicnode.NewString("x")
+	for _, pf := range []cid.Prefix{
+		{Version: 1, Codec: 0x99999, MhType: 0x12, MhLength: 32},
+		{Version: 1, Codec: 0x71, MhType: 0x7777, MhLength: 32},
+		{Version: 1, Codec: 0x99999, MhType: 0x7777, MhLength: -1},
+	} {
+		lp := cidlink.LinkPrototype{Prefix: pf}
+		c.SetCase(func() any {
+			return map[string]any{"family": "unknown codec or hasher", "prefix": fmt.Sprintf("%+v", pf)}
+		})
+		var l1, l2 datamodel.Link
+		var e1, e2 error
+		if !c.Guard("C05:Store:unknown-parts", func() { l1, e1 = lsys.Store(linking.LinkContext{}, lp, n) }) && (e1 == nil || l1 != nil) {
+			c.Deviate("C05:unknown-parts:store-no-error", fmt.Sprintf("Store with prefix %+v returned link=%v err=%v", pf, l1, e1))
+		}
+		if !c.Guard("C05:ComputeLink:unknown-parts", func() { l2, e2 = lsys.ComputeLink(lp, n) }) && (e2 == nil || l2 != nil) {
+			c.Deviate("C05:unknown-parts:computelink-no-error", fmt.Sprintf("ComputeLink with prefix %+v returned link=%v err=%v", pf, l2, e2))
+		}
+		// a link of that shape that somebody else made
+		lnk := cidlink.Link{Cid: cid.NewCidV1(pf.Codec, mustMH(pf.MhType))}
+		var ln datamodel.Node
+		var e3 error
+		if !c.Guard("C05:Load:unknown-parts", func() { ln, e3 = lsys.Load(linking.LinkContext{}, lnk, basicnode.Prototype.Any) }) && (e3 == nil || ln != nil) {
+			c.Deviate("C05:unknown-parts:load-no-error", fmt.Sprintf("Load of a link with prefix %+v returned node nil=%v err=%v", pf, ln == nil, e3))
+		}
+		c.Count("unknown_parts_probes", 1)
+	}
+}
+
+func mustMH(code uint64) []byte {
+	d := make([]byte, 32)
+	return append(append(model.Varint(code), model.Varint(32)...), d...)
+}
+
 func (c05) RunCase(c *fw.Ctx, rng *fw.RNG, batch, i int) {
 	c05Init()
+	if i%200 == 7 {
+		c05UnknownParts(c, rng)
+	}
 	// --- configuration of this history
 	useCidMem := rng.Bool()
 	private := rng.Bool()
